@@ -78,8 +78,8 @@ func c11SchemeScenarios(thorough bool) []sched.Scenario {
 			return b
 		}
 		scs = append(scs,
-			sched.Scenario{Cost: 40, Name: "kem/" + name + "/Decapsulate||Decapsulate", Setup: fresh, Threads: []func(interface{}) interface{}{decap(ct1), decap(ct2)}},
-			sched.Scenario{Cost: 40, Name: "kem/" + name + "/Encapsulate||Decapsulate||Public", Setup: fresh, Threads: []func(interface{}) interface{}{encap, decap(ct1), pub}})
+			sched.Scenario{Cost: 250, Name: "kem/" + name + "/Decapsulate||Decapsulate", Setup: fresh, Threads: []func(interface{}) interface{}{decap(ct1), decap(ct2)}},
+			sched.Scenario{Cost: 250, Name: "kem/" + name + "/Encapsulate||Decapsulate||Public", Setup: fresh, Threads: []func(interface{}) interface{}{encap, decap(ct1), pub}})
 	}
 	type sigShared struct {
 		pk sign.PublicKey
@@ -133,9 +133,9 @@ func c11SchemeScenarios(thorough bool) []sched.Scenario {
 			return sch.Verify(s.pk, m2, sig2, nil)
 		}
 		scs = append(scs,
-			sched.Scenario{Cost: 40, Name: "sign/" + name + "/Verify||Verify", Setup: fresh, Threads: []func(interface{}) interface{}{verify, verify2}},
-			sched.Scenario{Cost: 40, Name: "sign/" + name + "/Sign||Sign", Setup: fresh, Threads: []func(interface{}) interface{}{signer(m1), signer(m2)}},
-			sched.Scenario{Cost: 40, Name: "sign/" + name + "/Sign||Verify||Public", Setup: fresh, Threads: []func(interface{}) interface{}{signer(m2), verify, pub}})
+			sched.Scenario{Cost: 250, Name: "sign/" + name + "/Verify||Verify", Setup: fresh, Threads: []func(interface{}) interface{}{verify, verify2}},
+			sched.Scenario{Cost: 250, Name: "sign/" + name + "/Sign||Sign", Setup: fresh, Threads: []func(interface{}) interface{}{signer(m1), signer(m2)}},
+			sched.Scenario{Cost: 250, Name: "sign/" + name + "/Sign||Verify||Public", Setup: fresh, Threads: []func(interface{}) interface{}{signer(m2), verify, pub}})
 	}
 	return scs
 }
